@@ -334,7 +334,14 @@ class RFCOMM_Frame:
         fcs = data[-1]
 
         # Construct the frame and check the CRC
-        frame = RFCOMM_Frame(frame_type, c_r, dlci, p_f, information)
+        frame = RFCOMM_Frame(
+            frame_type,
+            c_r,
+            dlci,
+            p_f,
+            information,
+            with_credits=(frame_type == FrameType.UIH and p_f == 1),
+        )
         if frame.fcs != fcs:
             logger.warning(f'FCS mismatch: got {fcs:02X}, expected {frame.fcs:02X}')
             raise InvalidPacketError('fcs mismatch')
